@@ -15,6 +15,7 @@ import Driver.Config
 import Driver.C19
 import Driver.C12
 import Driver.C18
+import Driver.Sched
 
 open Corerad
 
@@ -28,7 +29,9 @@ def handlers : List (String × (List String → List String → Option Verdict))
   ("ra1", Driver.Config.ra1), ("ra3", Driver.Config.ra3), ("ra4", Driver.Config.ra4),
   ("ws", Driver.C19.ws), ("wsu", Driver.C19.wsu),
   ("vr", Driver.C12.vr),
-  ("mon", Driver.C18.mon)
+  ("mon", Driver.C18.mon),
+  ("sch6", Driver.Sched.sch6), ("sch7", Driver.Sched.sch7),
+  ("adv6", Driver.Sched.adv6), ("adv7", Driver.Sched.adv7)
 ]
 
 def runLine (line : String) : String :=
